@@ -27,6 +27,8 @@ TRUSTED = [
     "supplied as data by the harness, not modelled: the variant table (VcfReader(phases=True)) and the read sets with the "
     "alleles/qualities detected by the real ReadSetReader (whatshap/variants.py), obtained by calling the same functions "
     "run_haplotag calls",
+    "the end-to-end oracle EXPECT takes the generated truth (which haplotype a read copies) as given and observes allele "
+    "detection together with the decision; it is only applied where the outcome cannot depend on detection details",
     "canonicalisation of BAM records into integers (all fields and all tags other than HP/PS/PC, tag order ignored) by the harness",
     "the order in which the real code processes the samples is recorded by the driver (wrapper around PhasedInputReader.read) "
     "and handed to the model as data",
@@ -54,7 +56,8 @@ Record ccase := mkCase {
   k_outs : list (Z * aln);                       (* written records: (chromosome index | -1, record with its HP/PS/PC) *)
   k_list : option (list (Z * option Z * option Z * Z));
   k_swap : option (list nat * Z * Z * list (option Z) * list (Z * tags3));
-  k_exp : list (list (list vrow)) }.             (* per chromosome, per processed sample: the table column as generated *)
+  k_exp : list (list (list vrow));               (* per chromosome, per processed sample: the table column as generated *)
+  k_truth : list (Z * Z * Z) }.                  (* (record id, HP, PS) that error-free copies of one haplotype must receive *)
 Definition out_pairs (c : ccase) := map (fun o => (a_id (snd o), a_old (snd o))) (k_outs c).
 Definition outs_on (c : ccase) (k : Z) := map snd (filter (fun o => fst o =? k) (k_outs c)).
 Definition L1cons (c : ccase) := k_ok c && conserved_spec (k_chroms c) (k_user c) (k_tail c) (out_pairs c).
@@ -77,6 +80,15 @@ Definition TABLE (c : ccase) :=
              Nat.eqb (length (c_samples ch)) (length ex) &&
              forallb (fun se => table_ok regs (fst (fst se)) (snd se)) (combine (c_samples ch) ex))
           (combine (seq 0 (length (k_chroms c))) (combine (k_chroms c) (k_exp c))).
+(* end-to-end: a record that is an error-free copy of one haplotype of its sample, covers phased heterozygous
+   variants of a single phase set that tell this haplotype from all others, is unpaired, usable and not barcoded,
+   must come out with exactly that haplotype and phase set (the read detection is part of what is observed here) *)
+Definition EXPECT (c : ccase) :=
+  negb (k_ok c) ||
+  forallb (fun e => let '(id, hp, ps) := e in
+             forallb (fun o => negb (a_id (snd o) =? id)
+                               || (oz_eqb (fst (fst (a_old (snd o)))) (Some hp) && oz_eqb (snd (fst (a_old (snd o)))) (Some ps)))
+                     (k_outs c)) (k_truth c).
 Definition L1swap (c : ccase) :=
   match k_swap c with
   | None => true
@@ -385,7 +397,73 @@ def case_term(case, res):
             out2 = [(r["id"], tags_term(r["tags"])) for r in res["swapped"]]
             sw = ([Nat(j) for j in swp["perm"]], swp["ps"], k, smp, out2)
     return (f"(mkCase {cfg_term(o)} {term(cts)} {term(opt(user))} {term(tail)} {term(res['rc'] == 0)} {term(outs)} "
-            f"{term(opt(lst))} {term(opt(sw))} {term(exps)})")
+            f"{term(opt(lst))} {term(opt(sw))} {term(exps)} {term(expected_tags(case, res))})")
+
+
+def expected_tags(case, res):
+    """[(record id, HP, PS)] for the records whose tag is certain from the generated truth (see EXPECT in HEADER).
+    Conservative: every condition that could make allele detection or the decision depend on details is excluded."""
+    o = case["opts"]
+    ext = res["ext"]
+    order = ext.get("samples_order") or []
+    chs = ext.get("chroms") or {}
+    if res["rc"] != 0 or not order:
+        return []
+    names_by_sample = {}
+    for a in case["alns"]:
+        names_by_sample.setdefault(a["name"], set()).add(a["sample"])
+    by_key = {(r["qname"], r["start"], r["tid"]): r for r in res["inp"] if not r["secondary"] and not r["suppl"] and not r["unmapped"]}
+    regs = parsed_regions(case, res)
+    out = []
+    res["_expect_bridge"] = 0
+    for a in case["alns"]:
+        h = a.get("truth")
+        if h is None or (a["flag"] & ~0x400) != 0 or a["mapq"] < 20 or any(t[0] == "BX" for t in a["tags"]):
+            continue
+        smp = a["sample"]
+        if o["ignore_read_groups"]:
+            if len(order) != 1 or smp != order[0] or len(names_by_sample[a["name"]]) > 1:
+                continue
+        elif smp not in order:
+            continue
+        e = chs.get(a["chrom"])
+        if not e or smp not in e["rows"]:
+            continue
+        st = a["start"]
+        en = st + sum(n for op, n in a["cigar"] if op in "MDN=X")
+        tid = case["chroms"].index(a["chrom"])
+        if regs is not None and not any(k == tid and st < (10 ** 12 if e_ is None else e_) and en > s_ for k, s_, e_ in regs):
+            continue                                  # not written at all
+        near = [v for v in case["variants"][a["chrom"]] if st - 6 <= v[0] < en + 6]
+        if any(len(v[1]) != 1 or len(v[2]) != 1 for v in near):
+            continue                                  # only SNVs in reach of the read
+        blocks, p = [], st
+        for op, n in a["cigar"]:
+            if op in "M=X":
+                blocks.append((p, p + n))
+                p += n
+            elif op in "DN":
+                p += n
+        table = {pos: ph for pos, _, ph in e["rows"][smp] if ph is not None}
+        maybe = [pos for pos in table if st <= pos < en]
+        sure = [pos for pos in maybe if any(b0 + 12 <= pos < b1 - 12 for b0, b1 in blocks)]
+        if not sure or len({table[pos][0] for pos in maybe}) != 1:
+            continue
+        ps = table[sure[0]][0]
+        pl = case["ploidy"]
+        if any(table[pos][1][h] != case["calls"][smp][a["chrom"]][[v[0] for v in case["variants"][a["chrom"]]].index(pos)]["gt"][h]
+               for pos in maybe):
+            continue                                  # (swapped tables are not used here) sanity: truth equals the table
+        if not all(any(table[pos][1][h2] != table[pos][1][h] for pos in sure) for h2 in range(pl) if h2 != h):
+            continue
+        r = by_key.get((a["name"], st, tid))
+        if r is None:
+            continue
+        out.append((r["id"], h + 1, ps))
+        if regs is not None and sum(1 for k, s_, e_ in regs if k == tid) >= 2 and any(k == tid and e_ is not None and abs(e_ - st) <= 1 for k, s_, e_ in regs):
+            res["_expect_bridge"] += 1
+    res["_expect_n"] = len(out)
+    return out
 
 
 def nontrivial(res):
@@ -393,7 +471,7 @@ def nontrivial(res):
     return bool(t) and len(t) < len(res["out"])
 
 
-CHECKS = {"L1cons": "L1cons", "L1tag": "L1tag", "L1link": "L1link", "TABLE": "TABLE", "L1swap": "L1swap", "L1list": "L1list",
+CHECKS = {"L1cons": "L1cons", "L1tag": "L1tag", "L1link": "L1link", "TABLE": "TABLE", "EXPECT": "EXPECT", "L1swap": "L1swap", "L1list": "L1list",
           "L2": "L2", "L2list": "L2list", "NOTAMB": "NOTAMB", "OLDRULE": "OLDRULE", "NOLINKAPPL": "NOLINKAPPL"}
 INFO_LABELS = {"NOTAMB", "OLDRULE", "NOLINKAPPL"}
 
@@ -456,6 +534,11 @@ def check_cases(ctx, cases, label, report=True):
             ctx.tally("cli.error_exit")
         if "NOTAMB" in fails:
             ctx.tally("cli.group_with_tied_phase_sets")
+        ctx.tally("cli.truth.records_with_certain_expected_tag", r.get("_expect_n", 0))
+        if r.get("_expect_bridge"):
+            ctx.tally("cli.truth.expected_tag_on_record_starting_within_1_of_an_earlier_region_end", r["_expect_bridge"])
+        if c.get("bridge"):
+            ctx.tally("cli.bridge." + c["bridge"])
         if "NOLINKAPPL" in fails:
             ctx.tally("cli.bx.runs_where_cloud_rule_applied_to_split_barcode")
         feature_tallies(ctx, c, r)
@@ -646,6 +729,10 @@ def report_cli(ctx, evaluated, shrink=True):
         if "L1link" in fails:
             ctx.violation("haplotag:tag-rule-linked", "an alignment tagged through its own read does not carry the best haplotype of "
                           "its (order-independent) read cloud: " + describe(c, r), {"kind": "cli", "case": c})
+        if "EXPECT" in fails:
+            ctx.violation("haplotag:decidable-read-not-tagged-with-its-haplotype", "a usable, unpaired, non-barcoded record that is an "
+                          "error-free copy of one haplotype and covers phased heterozygous variants telling it from the others is "
+                          "not written with that haplotype and phase set: " + describe(c, r), {"kind": "cli", "case": c})
         if "TABLE" in fails:
             ctx.violation("haplotag:phased-variant-table", "the variant table used for tagging is not the table of the VCF's biallelic "
                           "records (a phased heterozygous variant is lost or altered): " + describe(c, r), {"kind": "cli", "case": c})
@@ -932,6 +1019,7 @@ def run(ctx):
     cases = []
     for kind in ("overlapping", "unsorted", "sorted-near", "sorted-far", "chrom-order", "chrom", "open", "single", "edge"):
         cases += [G.gen_case(rng, region_kind=kind) for _ in range(ctx.n(3, 25))]
+    cases += [G.gen_case(rng, region_kind="bridge") for _ in range(ctx.n(16, 150))]
     cases += [G.gen_case(rng, region_kind="none") for _ in range(ctx.n(40, 250))]
     # read names and barcodes shared between the samples of one BAM
     cases += [G.gen_case(rng, shared=True, region_kind=rng.choice(["none", "none", "chrom", "single"])) for _ in range(ctx.n(10, 80))]
